@@ -162,6 +162,9 @@ pub fn oracle(sc: &Scenario, obs: &mut Obs) -> CaseResult {
             format!("the application-visible outcome differs from the same scenario without the {} injected datagrams: {diff}", s.injected_delivered),
         ));
     }
+    for (suite, name) in [(0u8, "suite:TLS_AES_128_GCM_SHA256"), (1, "suite:TLS_AES_256_GCM_SHA384"), (2, "suite:TLS_CHACHA20_POLY1305_SHA256")] {
+        obs.class_if(out.recs.iter().any(|r| matches!(r.ev, crate::rec::Ev::KeyUpdate { space: crate::rec::Space::App, suite: x, .. } if x == suite)), name);
+    }
     obs.class_if(s.injected_after_handshake > 0, "injected-into-established-connection");
     obs.class_if(s.replays_of_one_rtt > 0, "replay-of-1rtt-packet");
     obs.class_if(sc.attacks.iter().any(|a| matches!(a.kind, AttackKind::Splice { .. })), "splice");
@@ -205,6 +208,8 @@ fn attack() -> impl Strategy<Value = Attack> {
 pub fn scenario() -> impl Strategy<Value = Scenario> {
     (gen::scenario(CFG), prop::collection::vec(attack(), 1..40)).prop_map(|(mut sc, attacks)| {
         sc.attacks = attacks;
+        // half of the cases run on TLS_AES_256_GCM_SHA384 (server policy), the others on TLS_AES_128_GCM_SHA256
+        sc.tls_aes256 = sc.seed & 1 == 1;
         sc.net.delay_us = sc.net.delay_us.min(30_000);
         sc.net.max_udp_payload = 65_000;
         for c in &mut sc.clients {
